@@ -249,17 +249,106 @@ def run_swap(chk, n):
     chk.extra.setdefault("strata", {})["watcher_replaced_histories"] = 2 * n
 
 
+# ----------------------------------------------------------------------------- probed strata (added after the third seeding wave)
+REFUSALS = [(), ("add_policy",), ("remove_policy",), ("add_policies", "remove_policies"), ("update_policy", "update_policies"),
+            ("remove_filtered_policy",),
+            ("add_policy", "remove_policy", "add_policies", "remove_policies", "update_policy", "update_policies", "remove_filtered_policy")]
+
+
+def snap_canon(sn):
+    A = mgmt.ATOMS
+    mem = [A.rules(sn["mem"].get(k, [])) for k in ("p", "g", "g2")]
+    return mem, [[mgmt.PT_OF[pt], A.rule(r)] for pt, r in sn["rows"]]
+
+
+def order_check(kind, rows, lf, ops, obs, impl):
+    """"issued AFTER the in-memory and adapter changes": the recording watcher looks at the enforcer's stored rules and at
+    the adapter's rows at the moment it is notified; for a call that stands for ONE base operation (and for save_policy and
+    update_filtered_policies) what it sees must already be what the call leaves behind"""
+    snaps = list(getattr(impl.watcher, "snaps", []) or []) if impl.watcher is not None else []
+    k = 0
+    for i, (op, o) in enumerate(zip(ops, obs)):
+        n = len(o[2])
+        mine, k = snaps[k:k + n], k + n
+        c = op[0]
+        single = c in (8, 33) or (1 <= c <= 20 and len(desugar(kind, op)) == 1)
+        if n == 1 and len(mine) == 1 and single and o[0][0] == 0:
+            mem, db = snap_canon(mine[0])
+            if mem != [o[3], o[4], o[5]]:
+                return [(i, "the watcher was notified before the in-memory change was complete (at callback time the stored "
+                            "rules were not yet those the call leaves)")]
+            if db != o[6]:
+                return [(i, "the watcher was notified before the adapter change was complete (at callback time the adapter's "
+                            "rows were not yet those the call leaves)")]
+    if k != len(snaps):
+        return [(len(ops) - 1, "a notification was issued that no management call of the history accounts for")]
+    return []
+
+
+_SPECS = {}
+
+
+def probed_spec(is_async, coro, refuse):
+    key = (is_async, coro, tuple(refuse))
+    if key not in _SPECS:
+        def sc(kind, rows, lf, ops, obs, impl):
+            return spec_check(kind, rows, lf, ops, obs, impl) or order_check(kind, rows, lf, ops, obs, impl)
+        sc.case_extra = dict(enforcer="AsyncEnforcer" if is_async else "Enforcer", probed=True,
+                             watcher_callbacks="coroutine" if coro else "plain", adapter_refuses=list(refuse))
+        _SPECS[key] = sc
+    return _SPECS[key]
+
+
+def run_probed(chk, n):
+    """sync and async enforcers behind probes: (a) the watcher records what the enforcer's memory and the adapter hold at
+    callback time; (b) async: the update_for_* callbacks are COROUTINE functions that yield once before recording;
+    (c) the adapter REFUSES some kinds of calls (returns False): such a call reports failure and must not notify.
+    Model correspondence where the adapter refuses nothing."""
+    from ..async_facade import probed_enforcer
+    rng = chk.rng
+    st = chk.extra.setdefault("strata", {})
+    for is_async in (False, True):
+        for refuse in REFUSALS:
+            for coro in ((False, True) if is_async else (False,)):
+                for kn in ("acl", "rbac"):
+                    for w in ((2, 3) if coro else (1, 2, 3)):
+                        kind = mgmt.KINDS[kn].with_(adapter=True, watcher=w)
+                        cases = []
+                        for _ in range(n if not refuse else max(2, n // 2)):
+                            g = mgmt.Gen(rng, kind, W)
+                            rows = g.rows(rng.randint(0, 6))
+                            ops = g.history(rng.randint(3, 12), final_probe=False)
+                            if refuse:
+                                # delete_user / delete_role are TWO underlying calls whose successes the spec counts from the
+                                # stores; with a refusing adapter a changed store no longer means a reported success
+                                ops = [o for o in ops if o[0] not in (10, 11)]
+                            cases.append((rows, True, ops))
+                        label = (f"probed-{'async' if is_async else 'sync'}-{kn}-watcher{w}" + ("-coroutine-callbacks" if coro else "") +
+                                 (("-adapter-refuses-" + "+".join(refuse)) if refuse else ""))
+                        mgmt.run_cases(chk, kind, cases, probed_spec(is_async, coro, refuse), label=label,
+                                       impl_kwargs=dict(enforcer_cls=probed_enforcer(is_async, coro, refuse)),
+                                       compare_model=not refuse,
+                                       key_fn=lambda k_, r, o, _t=(is_async, coro, refuse): ("probed", _t, k_.name, k_.watcher, repr([x for x in o if x[0] < 50])))
+                        key = f"probed_{'async' if is_async else 'sync'}" + ("_coroutine_callbacks" if coro else "") + ("_adapter_refuses" if refuse else "")
+                        st[key] = st.get(key, 0) + len(cases)
+
+
 def main():
     chk = Check(PROP)
     chk.rule = ("management histories (valid, duplicate, rejected calls; single/batch/filtered/update/update_filtered; RBAC "
                 "wrappers; save_policy) x watcher kinds {update() only, WatcherEx, WatcherEx+WatcherUpdatable} x auto-notify "
                 "toggled inside 30% of the histories, adapter attached, on ACL / RBAC / domain / priority models; plus histories "
                 "in which set_watcher replaces the watcher (any kind -> any kind) half-way; "
-                "non-trivial = at least one mutating call; distinct by (kind, watcher, mutating calls)")
+                "non-trivial = at least one mutating call; distinct by (kind, watcher, mutating calls)"
+                "; probed strata on the sync and the async enforcer: the recording watcher looks at the enforcer's stored rules "
+                "and the adapter's rows at callback time, the async watcher's update_for_* callbacks are coroutine functions "
+                "in half of the async histories, and the adapter refuses (returns False for) one of 6 groups of calls in "
+                "6 of 7 configurations")
     chk.assumptions = ["save_policy notifies whenever a watcher is set (the property's last clause; the code does not consult "
                        "auto-notify there, like the Go reference)",
                        "delete_user / delete_role are two underlying management calls: one notification per successful one",
-                       "async enforcer: ACL/RBAC histories with plain (non-coroutine) watcher callbacks here; coroutine callbacks and the twin equality are C18"]
+                       "async enforcer: ACL/RBAC histories, each call awaited; watcher.update() is a plain function as in casbin.persist.Watcher, only the update_for_* callbacks may be coroutine functions; the twin equality is C18",
+                       "a refusing adapter returns False and stores nothing; what the enforcer keeps in memory after a refused call is outside this property"]
     chk.trusted = ["hand-written models coq/theories/{Policy,RoleGraph,Mgmt}.v tied by the differential history correspondence"]
     chk.build(oracle_name="Mgmt")
     if chk.replay_file:
@@ -267,6 +356,12 @@ def main():
         c = (json.load(open(chk.replay_file)).get("case") or {})
         if c.get("stratum") == "watcher-replaced":
             return replay_swap(chk, c)
+        if c.get("probed"):
+            from ..async_facade import probed_enforcer
+            t = (c.get("enforcer") == "AsyncEnforcer", c.get("watcher_callbacks") == "coroutine", tuple(c.get("adapter_refuses") or ()))
+            if t[2]:
+                chk.oracle = None          # the model's adapter never refuses
+            return mgmt.replay_case(chk, probed_spec(*t), impl_kwargs=dict(enforcer_cls=probed_enforcer(*t)))
         if c.get("enforcer") == "AsyncEnforcer":
             from ..async_facade import AsyncFacade
             return mgmt.replay_case(chk, spec_check_async, impl_kwargs=dict(enforcer_cls=AsyncFacade))
@@ -275,12 +370,16 @@ def main():
         run(chk, 600)
         run_swap(chk, 1500)
         run_async(chk, 300)
+        run_probed(chk, 100)
     else:
         run(chk, 60)
         run_swap(chk, 150)
         run_async(chk, 30)
+        run_probed(chk, 24)
         if (chk.broken() or chk.anchor_changed) and not chk.spec_failures:
             run(chk, 300)
+            if not chk.spec_failures:
+                run_probed(chk, 40)
     chk.finish()
 
 
